@@ -1,16 +1,40 @@
 (* Assembly of the C05 obligations (the part that is logic) into the statement of props/C05.v. *)
 From Coq Require Import Reals List Arith Bool.
 From Coquelicot Require Import Coquelicot.
-From GS Require Import ExprR LinAlg Chi2 GraphModel GNSpec LinearSpec OptLoopR C01_SE3 C10_SE3_boxplus C05_main.
+From GS Require Import ExprR LinAlg Chi2 Wrap GraphModel GNSpec LinearSpec OptLoopR C01_SE3 C01_SE2 C09_SE2 C10_SE3_boxplus C05_main C05_chi2.
 Import ListNotations.
 Open Scope R_scope.
 
 Lemma C05_all :
   (* the chi2 of an edge along a boxplus perturbation of a vertex is differentiable and its derivative is built from the error and
-     the code's Jacobian (instance: SE(3) odometry, first vertex; generic lemma quad_derive + C01) *)
+     the code's Jacobian: (J u)^T Omega e + e^T Omega (J u)  (generic lemmas quad_derive / quad_derive_curve + C01), for the SE(3) and
+     SE(2) edge kinds and both vertices; SE(2): base pose in range (every constructed pose, C11), odometry off the jump set of the error *)
   (forall om p1 p2 z u, length p1 = 7%nat -> length p2 = 7%nat -> length z = 7%nat -> length u = 6%nat ->
-     let e0 := err_odo3 p1 p2 z in let Ju := matvec (nth 0 (jac_odo3 p1 p2 z) []) u in
-     is_derive (fun t => quad (err_odo3 (SE3_boxplus_fun p1 (vscale t u)) p2 z) om) 0 (dotR Ju (matvec om e0) + dotR e0 (matvec om Ju))) /\
+     let e0 := err_odo3 p1 p2 z in
+     (let Ju := matvec (nth 0 (jac_odo3 p1 p2 z) []) u in
+      is_derive (fun t => quad (err_odo3 (SE3_boxplus_fun p1 (vscale t u)) p2 z) om) 0 (dotR Ju (matvec om e0) + dotR e0 (matvec om Ju))) /\
+     (let Ju := matvec (nth 1 (jac_odo3 p1 p2 z) []) u in
+      is_derive (fun t => quad (err_odo3 p1 (SE3_boxplus_fun p2 (vscale t u)) z) om) 0 (dotR Ju (matvec om e0) + dotR e0 (matvec om Ju)))) /\
+  (forall om p l z off u, length p = 7%nat -> length l = 3%nat -> length z = 3%nat -> length off = 7%nat -> length u = 6%nat ->
+     let e0 := err_lmk3 p l z off in let Ju := matvec (nth 0 (jac_lmk3 p l z off) []) u in
+     is_derive (fun t => quad (err_lmk3 (SE3_boxplus_fun p (vscale t u)) l z off) om) 0 (dotR Ju (matvec om e0) + dotR e0 (matvec om Ju))) /\
+  (forall om p l z off u, length p = 7%nat -> length l = 3%nat -> length z = 3%nat -> length off = 7%nat -> length u = 3%nat ->
+     let e0 := err_lmk3 p l z off in let Ju := matvec (nth 1 (jac_lmk3 p l z off) []) u in
+     is_derive (fun t => quad (err_lmk3 p (R3_boxplus_fun l (vscale t u)) z off) om) 0 (dotR Ju (matvec om e0) + dotR e0 (matvec om Ju))) /\
+  (forall om p1 p2 z u, length p1 = 3%nat -> length p2 = 3%nat -> length z = 3%nat -> length u = 3%nat ->
+     not_at_wrap (nth 2 z 0 - (nth 2 p2 0 - nth 2 p1 0)) ->
+     let e0 := err_odo2 p1 p2 z in
+     (in_range p1 -> let Ju := matvec (nth 0 (jac_odo2 p1 p2 z) []) u in
+        is_derive (fun t => quad (err_odo2 (SE2_boxplus_fun p1 (vscale t u)) p2 z) om) 0 (dotR Ju (matvec om e0) + dotR e0 (matvec om Ju))) /\
+     (in_range p2 -> let Ju := matvec (nth 1 (jac_odo2 p1 p2 z) []) u in
+        is_derive (fun t => quad (err_odo2 p1 (SE2_boxplus_fun p2 (vscale t u)) z) om) 0 (dotR Ju (matvec om e0) + dotR e0 (matvec om Ju)))) /\
+  (forall om p l z off u, length p = 3%nat -> length l = 2%nat -> length z = 2%nat -> length off = 3%nat -> length u = 3%nat ->
+     in_range p ->
+     let e0 := err_lmk2 p l z off in let Ju := matvec (nth 0 (jac_lmk2 p l z off) []) u in
+     is_derive (fun t => quad (err_lmk2 (SE2_boxplus_fun p (vscale t u)) l z off) om) 0 (dotR Ju (matvec om e0) + dotR e0 (matvec om Ju))) /\
+  (forall (om : list (list R)) (F : R -> list R) (Ju : list R) (m : nat),
+     (forall t, length (F t) = m) -> length Ju = m -> (forall i, is_derive (fun t => nth i (F t) 0) 0 (nth i Ju 0)) ->
+     is_derive (fun t => quad (F t) om) 0 (dotR Ju (matvec om (F 0)) + dotR (F 0) (matvec om Ju))) /\
   (forall (om : list (list R)) (fs : list (R -> R)) (vs : list R) t0, Forall2 (fun f v => is_derive f t0 v) fs vs ->
      is_derive (fun t => quad (evalfs fs t) om) t0 (dotR vs (matvec om (evalfs fs t0)) + dotR (evalfs fs t0) (matvec om vs))) /\
   (* a state is first-order stationary (2 b.d = 0 for every direction keeping the fixed vertices) iff the assembled gradient vanishes,
@@ -28,7 +52,12 @@ Lemma C05_all :
   (exists c0 c1 c2 tol, documented_stop tol c1 c2 /\ ~ documented_stop tol c0 c1 /\ c0 < c2).
 Proof.
   repeat match goal with |- _ /\ _ => split end.
-  - exact C05_chi2_derivative_odo3.
+  - intros om p1 p2 z u H1 H2 H3 Hu. cbv zeta. split; [exact (C05_chi2_derivative_odo3 om p1 p2 z u H1 H2 H3 Hu) | exact (C05_chi2_odo3_v1 om p1 p2 z u H1 H2 H3 Hu)].
+  - exact C05_chi2_lmk3_v0.
+  - exact C05_chi2_lmk3_v1.
+  - exact C05_chi2_odo2.
+  - exact C05_chi2_lmk2_v0.
+  - exact quad_derive_curve.
   - exact quad_derive.
   - exact C05_stationary_iff.
   - exact C05_descent.
